@@ -101,7 +101,16 @@ def execute(app, case, segs=None):
     data = request_bytes(version, conn, method, body, handler) + PING
     with World() as w:
         c = ServerConn(w, app, no_keep_alive=nka)
-        if segs is None:
+        if segs == "blocked-response":
+            # the response cannot be written yet (EAGAIN) when the handler finishes; the rest of the
+            # request and the pipelined probe arrive before the socket becomes writable again
+            head_end = data.index(b"\r\n\r\n") + 4
+            c.sock.blocked = True
+            c.send(data[:head_end])
+            c.send(data[head_end:])
+            c.sock.unblock()
+            w.pump()
+        elif segs is None:
             c.send(data)
         else:
             c.send_segments(en.segments(data, segs))
@@ -179,7 +188,7 @@ class C03(Check):
         for i, case in enumerate(all_cases()):
             if i % 32 != part:
                 continue
-            variants = [None]
+            variants = [None, "blocked-response"]
             if tier == "thorough":
                 n = len(request_bytes(*[case[0], case[1], case[2], case[3], case[5]])) + len(PING)
                 variants += [(c,) for c in range(1, n)]
@@ -200,6 +209,8 @@ class C03(Check):
                     base = (obs[0], obs[1])
                     if len(st.samples) < 3 and verdict == "CLOSE":
                         st.sample({"case": case, "reference": [verdict, why], "wire": obs[0][:160].decode("latin1")})
+                elif segs == "blocked-response":
+                    pass        # persistence may legitimately differ only through the asserted verdict
                 elif (obs[0], obs[1]) != base:
                     st.violation("segmentation-dependent", "case %r cut %r: %r vs %r" % (case, segs, obs[0][:80], base[0][:80]),
                                  {"case": case, "segs": segs})
@@ -210,7 +221,8 @@ class C03(Check):
     def replay(self, case):
         app = make_app()
         c = tuple(case["case"])
-        obs = execute(app, c, tuple(case["segs"]) if case.get("segs") else None)
+        sg = case.get("segs")
+        obs = execute(app, c, sg if isinstance(sg, str) else (tuple(sg) if sg else None))
         return "case %r\nreference %r\nwire %r\nclosed %r\nverdict %r" % (c, decide(*c), obs[0], obs[1], judge(c, obs)[0])
 
 
